@@ -31,10 +31,11 @@ EXTENDS Machine, Universe, Json, IOUtils, TLCExt, TLC
 
 VARIABLES pi,       \* program index in UProgs
           data,     \* the session's input
+          st,       \* where the session's calls start in their stream (filler bytes before)
           phase,    \* "start", "parse", "build", "reparse", "done"
           cur,      \* the call record being replayed (events and result as Sem prescribes them)
           log       \* results of the calls finished so far (emitted at the end)
-vars == <<pi, data, phase, cur, log, pc, stack, fails>>
+vars == <<pi, data, st, phase, cur, log, pc, stack, fails>>
 
 Control == "MC_CONTROL" \in DOMAIN IOEnv /\ IOEnv.MC_CONTROL = "1"
 Survey == "MC_SURVEY" \in DOMAIN IOEnv /\ IOEnv.MC_SURVEY = "1"      \* list every failing session instead of stopping at the first
@@ -54,21 +55,25 @@ InputsFor(i) == IF i <= Len(S1) + Len(S4) /\ FocusKinds = {} THEN UInputs ELSE S
 NoCall == [op |-> "none", events |-> <<>>]
 CaseRec(op, d, arg) == [op |-> op, data |-> d, start |-> 0, kw |-> UKw, flt |-> NoFlt, arg |-> arg, events |-> <<>>, model |-> TRUE,
                         res |-> [ok |-> TRUE, err |-> "", p |-> 0, v |-> VNone, path |-> <<>>]]
-CallF(op, d, arg, flt) == LET cs == [CaseRec(op, d, arg) EXCEPT !.flt = flt]
+\* position-sensitive parts of the universe are also run behind filler bytes: offsets stay absolute
+Starts == IF FocusKinds = {} THEN {0} ELSE {0, 2}
+Filler(n) == [i \in 1..n |-> 238]
+CallS(op, d, arg, flt, start) == LET cs == [CaseRec(op, d, arg) EXCEPT !.flt = flt, !.start = start]
                               r == Model(UProgs[pi], cs)
                           IN [cs EXCEPT !.events = r.ev, !.res = ModelRes(cs, r) @@ [path |-> <<>>, oom |-> IsOOM(r)]] @@ [ops |-> r.s.ops]
-Call(op, d, arg) == CallF(op, d, arg, NoFlt)
+CallF(op, d, arg, flt) == CallS(op, d, arg, flt, 0)
+Call(op, d, arg) == CallS(op, d, arg, NoFlt, 0)
 
-Init == /\ pi \in 1..NP /\ data \in {d \in InputsFor(pi) : InSlice(pi, d)} /\ phase = "start" /\ cur = NoCall /\ log = <<>>
+Init == /\ pi \in 1..NP /\ data \in {d \in InputsFor(pi) : InSlice(pi, d)} /\ st \in Starts /\ phase = "start" /\ cur = NoCall /\ log = <<>>
         /\ pc = 0 /\ stack = <<>> /\ fails = <<>>
 
 Start == /\ phase = "start"
-         /\ cur' = Call("parse", data, VNone) /\ phase' = "parse"
-         /\ UNCHANGED <<pi, data, log, pc, stack, fails>>
+         /\ cur' = CallS("parse", Filler(st) \o data, VNone, NoFlt, st) /\ phase' = "parse"
+         /\ UNCHANGED <<pi, data, st, log, pc, stack, fails>>
 
 Active == phase \in {"parse", "build", "reparse"} /\ ~cur.res.oom
-Enter == Active /\ EnterOn(cur) /\ UNCHANGED <<pi, data, phase, cur, log>>
-Leave == Active /\ LeaveOn(cur) /\ UNCHANGED <<pi, data, phase, cur, log>>
+Enter == Active /\ EnterOn(cur) /\ UNCHANGED <<pi, data, st, phase, cur, log>>
+Leave == Active /\ LeaveOn(cur) /\ UNCHANGED <<pi, data, st, phase, cur, log>>
 
 ---------------------------------------------------------------------------
 \* the explicit fragment for the round-trip theorems
@@ -106,7 +111,7 @@ Faults == "MC_FAULTS" \in DOMAIN IOEnv /\ IOEnv.MC_FAULTS = "1"
 FaultOk(n, clean) ==
     \A mode \in {"raise", "short", "noseek", "notell"} :
         \A k \in (IF mode \in {"raise", "short"} THEN 1..Min(clean.ops, 10) ELSE {0}) :
-            LET f == CallF(clean.op, clean.data, clean.arg, [k |-> k, mode |-> mode]) IN
+            LET f == CallS(clean.op, clean.data, clean.arg, [k |-> k, mode |-> mode], clean.start) IN
             f.res.oom \/ C06Fault(n, clean, f) # "fail"
 
 SessionChecks ==
@@ -130,7 +135,7 @@ SessionChecks ==
     \* ... and the canonical encoding is used up
     \o (IF phase = "reparse" /\ Explicit(n) /\ cur.res.ok /\ cur.res.p # Len(cur.data) THEN F("Tight") ELSE <<>>)
 
-Summary(cs) == [op |-> cs.op, ok |-> cs.res.ok, err |-> cs.res.err, p |-> cs.res.p, v |-> cs.res.v, oom |-> cs.res.oom,
+Summary(cs) == [op |-> cs.op, ok |-> cs.res.ok, err |-> cs.res.err, p |-> cs.res.p, v |-> cs.res.v, oom |-> cs.res.oom, start |-> cs.start,
                 data |-> cs.data, arg |-> cs.arg]
 Return ==
     /\ phase \in {"parse", "build", "reparse"}
@@ -142,12 +147,12 @@ Return ==
        IN /\ fails' = fails \o bad
           /\ log' = log2
           /\ phase' = nxt
-          /\ cur' = CASE nxt = "build" -> Call("build", <<>>, cur.res.v)
-                      [] nxt = "reparse" -> Call("parse", cur.res.v.b, VNone)
+          /\ cur' = CASE nxt = "build" -> Call("build", Filler(st), cur.res.v)
+                      [] nxt = "reparse" -> CallS("parse", Filler(st) \o cur.res.v.b, VNone, NoFlt, st)
                       [] OTHER -> NoCall
           /\ (bad # <<>> /\ Survey => PrintT(ToJson([id |-> "fail", pi |-> pi, data |-> data, bad |-> bad])))
-          /\ (nxt = "done" /\ Emit => PrintT(ToJson([id |-> "s", pi |-> pi, data |-> data, calls |-> log2])))
-    /\ pc' = 0 /\ stack' = <<>> /\ UNCHANGED <<pi, data>>
+          /\ (nxt = "done" /\ Emit => PrintT(ToJson([id |-> "s", pi |-> pi, data |-> data, st |-> st, calls |-> log2])))
+    /\ pc' = 0 /\ stack' = <<>> /\ UNCHANGED <<pi, data, st>>
 
 Next == Start \/ Enter \/ Leave \/ Return
 Spec == Init /\ [][Next]_vars
